@@ -194,6 +194,9 @@ Proof.
   - (* MAttrs *)
     destruct (active l); injection I as <- <-; (split; [repeat split; assumption|]); [|exact Hl].
     unfold loc_ok. simpl. rewrite Sa. auto.
+  - (* MQuery *)
+    destruct (active l); injection I as <- <-; (split; [repeat split; assumption|]); [|exact Hl].
+    unfold loc_ok. simpl. rewrite Sv. auto.
   - (* MEmit *)
     destruct (l_stop l); injection I as <- <-; (split; [repeat split; assumption|]); [exact Hl|].
     unfold loc_ok. simpl. split; [auto|]. split; [auto|].
